@@ -1,0 +1,105 @@
+//go:build verif
+
+// Contracts and ghost lemma functions for package sorting, checked by /verif (govc).
+// The lemma functions call the real comparators; their postconditions are the order laws of property C19.
+// They exist only under the build tag "verif".
+package sorting
+
+import (
+	"berty.tech/go-ipfs-log/iface"
+)
+
+//@ define cmpKey(a iface.IPFSLogEntry, b iface.IPFSLogEntry) = ite(etime(a) != etime(b), ite(etime(a) < etime(b), 0 - 1, 1), ite(ecid(a) != ecid(b), bytescmp(ecid(a), ecid(b)), strcmp(ehash(a), ehash(b))))
+
+//@ func SortByEntryHash
+//@   requires validEntry(a) && validEntry(b)
+//@   pure
+//@   ensures [hash-order-is-lexicographic] err == nil && sign(result0) == cmpKey(a, b)
+
+//@ func LastWriteWins
+//@   requires validEntry(a) && validEntry(b)
+//@   pure
+//@   ensures [lww-is-lexicographic] err == nil && (etime(a) != etime(b) || ecid(a) != ecid(b) ==> sign(result0) == cmpKey(a, b)) && (etime(a) == etime(b) && ecid(a) == ecid(b) ==> result0 == 1)
+
+//@ func FirstWriteWins
+//@   requires validEntry(a) && validEntry(b)
+//@   pure
+//@   ensures [fww-reverse-of-lww] err == nil && (etime(a) != etime(b) || ecid(a) != ecid(b) ==> sign(result0) == 0 - cmpKey(a, b)) && (etime(a) == etime(b) && ecid(a) == ecid(b) ==> result0 == 0 - 1)
+
+//@ func Compare
+//@   requires a == nil || validEntry(a)
+//@   requires b == nil || validEntry(b)
+//@   pure
+//@   ensures a == nil || b == nil ==> err != nil
+//@   ensures validEntry(a) && validEntry(b) ==> err == nil && sign(result0) == clockOrder(etime(a), ecid(a), etime(b), ecid(b))
+
+// ---- order laws (lemmas over the contracts above and over the real clock comparison) ----
+
+//@ func verifLemmaHashOrderAntisymmetric
+//@   lemma
+//@   requires validEntry(a) && validEntry(b)
+//@   ensures [irreflexive-on-equal-keys] ehash(a) == ehash(b) && etime(a) == etime(b) && ecid(a) == ecid(b) ==> result0 == 0
+//@   ensures [antisymmetric] sign(result0) == 0 - sign(result1)
+//@   ensures [total-on-distinct-hashes] ehash(a) != ehash(b) ==> result0 != 0
+//@   ensures [time-consistent] etime(a) < etime(b) ==> result0 < 0
+func verifLemmaHashOrderAntisymmetric(a, b iface.IPFSLogEntry) (int, int) {
+	x, _ := SortByEntryHash(a, b)
+	y, _ := SortByEntryHash(b, a)
+	return x, y
+}
+
+//@ func verifLemmaHashOrderTransitive
+//@   lemma
+//@   requires validEntry(a) && validEntry(b) && validEntry(c)
+//@   ensures [transitive] result0 < 0 && result1 < 0 ==> result2 < 0
+func verifLemmaHashOrderTransitive(a, b, c iface.IPFSLogEntry) (int, int, int) {
+	x, _ := SortByEntryHash(a, b)
+	y, _ := SortByEntryHash(b, c)
+	z, _ := SortByEntryHash(a, c)
+	return x, y, z
+}
+
+//@ func verifLemmaLWWOrder
+//@   lemma
+//@   requires validEntry(a) && validEntry(b) && validEntry(c)
+//@   requires etime(a) != etime(b) || ecid(a) != ecid(b)
+//@   requires etime(b) != etime(c) || ecid(b) != ecid(c)
+//@   requires etime(a) != etime(c) || ecid(a) != ecid(c)
+//@   ensures [antisymmetric] sign(result0) == 0 - sign(result3) && result0 != 0
+//@   ensures [transitive] result0 < 0 && result1 < 0 ==> result2 < 0
+//@   ensures [time-consistent] etime(a) < etime(b) ==> result0 < 0
+func verifLemmaLWWOrder(a, b, c iface.IPFSLogEntry) (int, int, int, int) {
+	x, _ := LastWriteWins(a, b)
+	y, _ := LastWriteWins(b, c)
+	z, _ := LastWriteWins(a, c)
+	w, _ := LastWriteWins(b, a)
+	return x, y, z, w
+}
+
+//@ func verifLemmaFWWReverse
+//@   lemma
+//@   requires validEntry(a) && validEntry(b)
+//@   ensures [fww-exact-reverse] sign(result0) == 0 - sign(result1)
+func verifLemmaFWWReverse(a, b iface.IPFSLogEntry) (int, int) {
+	x, _ := FirstWriteWins(a, b)
+	y, _ := LastWriteWins(a, b)
+	return x, y
+}
+
+//@ func verifLemmaClockCompare
+//@   lemma
+//@   requires validEntry(a) && validEntry(b) && validEntry(c)
+//@   ensures [antisymmetric] sign(result0) == 0 - sign(result3)
+//@   ensures [transitive] result0 < 0 && result1 < 0 ==> result2 < 0
+//@   ensures [time-consistent] etime(a) < etime(b) ==> result0 < 0
+func verifLemmaClockCompare(a, b, c iface.IPFSLogEntry) (int, int, int, int) {
+	x := a.GetClock().Compare(b.GetClock())
+	y := b.GetClock().Compare(c.GetClock())
+	z := a.GetClock().Compare(c.GetClock())
+	w := b.GetClock().Compare(a.GetClock())
+	return x, y, z, w
+}
+
+//@ func NoZeroes$1
+//@   requires deref(compFunc) != nil
+//@   ensures [never-zero-without-error] err == nil ==> result0 != 0
